@@ -17,8 +17,8 @@ PID = "C06"
 MOD = "bbverif.checks.c06"
 
 BODIES = {
-    "int": ["mode", "args", "index", "mode+args", "three"],
-    "float": ["args", "args2"],
+    "int": ["mode", "args", "index", "mode+args", "three", "func"],
+    "float": ["args", "args2", "func"],
     "bool": ["plain"],
     "str": ["plain"],
 }
@@ -37,6 +37,8 @@ def body_lines(kind, lv, var, m):
         return ["    Vac | %s" % var, "    Xgate(%s+%s) | [%s, %s]" % (var, lv.int(), var, m())]
     if kind == "three":
         return ["    Agate | %s" % var, "    Bgate(%s) | %s" % (var, m()), "    Cgate(x=[%s, %s]) | %s" % (var, lv.int(), m())]
+    if kind == "func":
+        return ["    Rgate(sin(%s*%s), k=exp(%s)) | %s" % (var, lv.float(), var, m()), "    Dgate(sqrt(%s+%s)) | %s" % (var, lv.float(), m())]
     if kind == "plain":
         return ["    Gate(%s, key=%s) | %s" % (var, var, m())]
     raise ValueError(kind)
